@@ -142,8 +142,29 @@ pub fn handle(op: &str, a: &[&str]) -> Option<Resp> {
         }
         ("rel.view", [allow, t]) => {
             let s = ds(t)?;
-            let (r, _errs) = Relations::parse_relaxed(&s, *allow == "1");
-            Some(Resp::ok(view_root(&r)))
+            let (r, errs) = Relations::parse_relaxed(&s, *allow == "1");
+            let view = view_root(&r);
+            // reader agreement (Props/C10Agree, oracle form): a text that BOTH the strict lossless reader
+            // and the lossy reader accept, on which no accessor panics, is read as the same structure —
+            // unless a name is directly followed by `!` inside a `<…>` group (`a <x!y>`: one term `x!y`
+            // for the lossless accessors, `x` and `!y` for the lossy reader; outside the Policy grammar)
+            let mut fail = None;
+            if *allow == "0" && errs.is_empty() && !view.contains("PANIC") && !bang_inside_term(&s) {
+                let l = lossy_view(&s);
+                if let Some(lv) = l.strip_prefix("ok E[").and_then(|x| x.strip_suffix(']')) {
+                    let lossless: String = r
+                        .entries()
+                        .map(|e| format!("{{{}}}", e.relations().map(|r| view_rel(&r)).collect::<Vec<_>>().join("|")))
+                        .collect();
+                    if lossless != lv {
+                        fail = Some(format!(
+                            "both readers accept the text and expose different structures: lossless {} lossy {}",
+                            lossless, lv
+                        ));
+                    }
+                }
+            }
+            Some(Resp::with(view, fail))
         }
         ("rel.version", [t]) => {
             let s = ds(t)?;
@@ -154,6 +175,27 @@ pub fn handle(op: &str, a: &[&str]) -> Option<Resp> {
         }
         _ => None,
     }
+}
+
+/// `bangInsideTerm` of Props/C10Agree.lean on the characters: an identifier character directly
+/// followed by `!` while inside `<…>` (`<` opens; `>`, `)`, `,`, `|` close — the last three so that
+/// the `<` of a version operator does not count)
+pub fn bang_inside_term(s: &str) -> bool {
+    let mut inside = false;
+    let cs: Vec<char> = s.chars().collect();
+    for (i, &c) in cs.iter().enumerate() {
+        match c {
+            '<' => inside = true,
+            '>' | ')' | ',' | '|' => inside = false,
+            _ => {
+                let ident = c.is_ascii_alphanumeric() || matches!(c, '.' | '+' | '~' | '-');
+                if inside && ident && cs.get(i + 1) == Some(&'!') {
+                    return true;
+                }
+            }
+        }
+    }
+    false
 }
 
 pub fn enc_version(v: &debversion::Version) -> String {
@@ -291,10 +333,13 @@ pub fn view_root(r: &Relations) -> String {
 }
 
 /// one representative per lexer arm (14 punctuation arms, newline), three whitespace characters,
-/// three identifier characters, two "anything else" characters (ASCII and multi-byte)
-pub const ALPHABET_FULL: [&str; 23] = [
+/// three identifier characters, four "anything else" characters: ASCII, multi-byte, and two that
+/// Unicode calls White_Space although the lossless lexer does not — U+00A0 and the control
+/// character form feed; `str::trim()` of the lossy reader strips both (audit C09/C10: the texts
+/// sent to `rel.lossy` / `rel.lprint` / `rel.view` must contain them)
+pub const ALPHABET_FULL: [&str; 25] = [
     "a", "1", "-", ":", "|", ",", "(", ")", "[", "]", "!", "<", ">", "=", "$", "{", "}", " ", "\t", "\r",
-    "\n", "@", "é",
+    "\n", "@", "é", "\u{a0}", "\u{c}",
 ];
 /// merged classes: one identifier character, one whitespace character, one error character
 pub const ALPHABET_MERGED: [&str; 18] = [
@@ -450,7 +495,7 @@ pub fn gen_c09_texts(tier: &str, seed: u64) -> Vec<String> {
         v.extend(strings_upto(&ALPHABET_FULL, 3));
         v.extend(exact_len(&ALPHABET_MERGED, 4));
         // length 4 over the characters the merged alphabet drops, with their neighbours
-        let extra = ["a", "1", "-", " ", "\t", "\r", "\n", "@", "é", ","];
+        let extra = ["a", "1", "-", " ", "\t", "\r", "\n", "@", "é", ",", "\u{a0}", "\u{c}"];
         v.extend(exact_len(&extra, 4));
     }
     // 2. token level: a context prefix that puts the parser inside a nested construct, followed
@@ -523,6 +568,57 @@ pub fn gen_c09_texts(tier: &str, seed: u64) -> Vec<String> {
         "a (>= 1 : 2)",
         "a : any",
         "a:any(>= 1)[b]<c>",
+        // the table of the C10 audit (section 4): strictly accepted outside `FieldA.WF`, and the
+        // neighbouring texts on which the readers differ or all reject
+        "a :any",
+        "a: any",
+        "a\n:\nany",
+        "a [! x]",
+        "a [!]",
+        "a [x !]",
+        "a [!!x]",
+        "a [! !x]",
+        "a [x!y]",
+        "a [x x]",
+        "a []",
+        "a <>",
+        "a <x!y>",
+        "a <!x!y>",
+        "a <x !y> <z!w>",
+        "a (1)",
+        "a (> 1)",
+        "a (< 1)",
+        "a (== 1)",
+        "a (<> 1)",
+        "a (=> 1)",
+        "a (>>= 1)",
+        "a (= x:1)",
+        "a (= 4294967296:1)",
+        "a (= 4294967295:1)",
+        "a (= 01:1)",
+        "a (= 1:)",
+        "a (= :1)",
+        "a (= ::)",
+        "a(=:)",
+        "\u{a0}a",
+        "a\u{c}, b",
+        "a (>> 1)\u{b}",
+        "a |\u{2003}b",
+        "${}",
+        "${:}",
+        "${a:}",
+        "${:a}",
+        "${a::b}",
+        "${}, a",
+        "a (= ${binary:Version})",
+        "${a:b} | c",
+        "a | ${b}",
+        "a ${b}",
+        "a:any:any",
+        "a (= 1) (= 2)",
+        "a [x] [y]",
+        "a <y> [x]",
+        "a [x] (>= 1)",
     ] {
         v.push(t.to_string());
     }
@@ -592,9 +688,26 @@ pub fn generate_c09(tier: &str, seed: u64, out: &mut Out) {
     }
 }
 
-/// lossy reader + printer over the rendered C10 fields and the C09 texts (groundwork for C14;
-/// run with `harness gen C14pre <tier> <seed>`)
+/// `every`-th text of the C09 exploration, the residue chosen by the seed (so that successive seeds
+/// cover the whole set); `every = 1` keeps everything. All texts of <= 3 characters are kept.
+fn sampled_c09_texts(tier: &str, seed: u64, every: usize) -> Vec<String> {
+    let r = (seed as usize) % every.max(1);
+    gen_c09_texts(tier, seed)
+        .into_iter()
+        .enumerate()
+        .filter(|(i, t)| every <= 1 || i % every == r || t.chars().count() <= 3)
+        .map(|(_, t)| t)
+        .collect()
+}
+
+/// lossy reader + printer over the rendered C10 fields and the C09 texts — part of `check C14`
+/// (also alone: `harness gen C14pre <tier> <seed>`, every text). Quick tier inside the check: every
+/// third text; thorough: every text of the quick enumeration.
 pub fn generate_c14pre(tier: &str, seed: u64, out: &mut Out) {
+    generate_c14pre_every(tier, seed, out, 1)
+}
+
+pub fn generate_c14pre_every(tier: &str, seed: u64, out: &mut Out, every: usize) {
     let mut tmp = Out::new();
     generate_c10(tier, seed, &mut tmp);
     for l in tmp.lines {
@@ -604,21 +717,31 @@ pub fn generate_c14pre(tier: &str, seed: u64, out: &mut Out) {
             }
         }
     }
-    for t in gen_c09_texts("quick", seed) {
+    for t in sampled_c09_texts("quick", seed, every) {
         out.req("rel.lprint", &[es(&t)]);
         out.req("rel.lossy", &[es(&t)]);
     }
 }
 
-/// accessor views over the C09 texts, and `debversion::Version::from_str` over its own alphabet
-/// (groundwork for C10; run with `harness gen C10pre <tier> <seed>`)
+/// accessor views over the C09 texts, and `debversion::Version::from_str` over its own alphabet —
+/// part of `check C10` (also alone: `harness gen C10pre <tier> <seed>`, every text). Quick tier
+/// inside the check: every second text, every version text of <= 4 characters and every second one
+/// of 5; thorough: every fourth text of the thorough enumeration, version texts to 6 likewise.
 pub fn generate_c10pre(tier: &str, seed: u64, out: &mut Out) {
-    for t in gen_c09_texts(tier, seed) {
+    generate_c10pre_every(tier, seed, out, 1)
+}
+
+pub fn generate_c10pre_every(tier: &str, seed: u64, out: &mut Out, every: usize) {
+    for t in sampled_c09_texts(tier, seed, every) {
         out.req("rel.view", &[if with_dollar(&t) { "1" } else { "0" }.to_string(), es(&t)]);
     }
     let valpha = ["1", "0", "a", ":", "-", ".", "+", "~", "_", "é", "٣"];
-    for t in strings_upto(&valpha, if tier == "thorough" { 6 } else { 5 }) {
-        out.req("rel.version", &[es(&t)]);
+    let r = (seed as usize) % every.max(1);
+    let vmax = if tier == "thorough" { 6 } else { 5 };
+    for (i, t) in strings_upto(&valpha, vmax).into_iter().enumerate() {
+        if every <= 1 || t.chars().count() < vmax || i % every == r {
+            out.req("rel.version", &[es(&t)]);
+        }
     }
     for t in ["4294967295:1", "4294967296:1", "00000000001:1", "99999999999999999999:1", "1:-", "1:-1", "1:a-", "a--b", "-a-b"] {
         out.req("rel.version", &[es(t)]);
